@@ -85,8 +85,14 @@ Fixpoint decode_value (fuel : nat) (v : bval) : res pyval :=
       | BStr b => Ok (if utf8_valid b then PStr b else PBytes b)
       | BList l => do l' <- mapM (decode_value f) l; Ok (PList l')
       | BDict kvs =>
-          do l' <- mapM (fun kv => do v' <- decode_value f (snd kv);
-                                   Ok (if utf8_valid (fst kv) then PStr (fst kv) else PBytes (fst kv), v')) kvs;
-          Ok (PDict l')
+          (* decode_value -> decode_dict -> decode_value: a dictionary level costs as much as it costs the
+             encoder (encode_value -> encode_dict -> encode_value), so what was decoded can be encoded again *)
+          match f with
+          | O => Err IRecursion
+          | S f2 =>
+              do l' <- mapM (fun kv => do v' <- decode_value f2 (snd kv);
+                                       Ok (if utf8_valid (fst kv) then PStr (fst kv) else PBytes (fst kv), v')) kvs;
+              Ok (PDict l')
+          end
       end
   end.
